@@ -211,7 +211,7 @@ func (t *TopKRedis) Import(data []byte, withNewKey bool) error {
 	}
 	frequencyMap := make(map[string]uint)
 	for i := range topk.Heap {
-		frequencyMap[topk.Heap[i].Value]++
+		frequencyMap[topk.Heap[i].Value] = uint(topk.Heap[i].Frequency)
 	}
 	err = t.importHeap(t.heapKey, frequencyMap)
 	if err != nil {
@@ -224,6 +224,16 @@ func (t *TopKRedis) Import(data []byte, withNewKey bool) error {
 	sketch.allSum = topk.Sketch.AllSum
 	sketch.setMatrix(topk.Sketch.Matrix)
 	t.sketch = sketch
+	metadata := make(map[string]interface{})
+	metadata["k"] = t.k
+	metadata["heapKey"] = t.heapKey
+	metadata["errorRate"] = t.errorRate
+	metadata["accuracy"] = t.accuracy
+	metadata["sketchKey"] = sketch.MetadataKey()
+	err = getRedisClient().HSet(context.Background(), t.metadataKey, metadata).Err()
+	if err != nil {
+		return fmt.Errorf("gostatix: error while unmarshalling data, error %v", err)
+	}
 	return nil
 }
 
@@ -237,7 +247,7 @@ func (t *TopKRedis) importHeap(key string, frequencyMap map[string]uint) error {
 	}
 	importHeapScript := redis.NewScript(`
 		local key = KEYS[1]
-		local vals2 = redis.pcall('ZRANGE', key, 0, -1)
+		redis.call('DEL', key)
 		for i=1, #ARGV, 2 do
 			local element = ARGV[i]
 			local score = ARGV[i+1]
